@@ -19,7 +19,7 @@ ML = "src/buildblock/ML_norm.cxx"
 
 def requests():
     return [
-        Request(ML, fn=["stir::apply_.*", "stir::make_fan_data_remove_gaps_help", "stir::set_fan_data_add_gaps_help"], files=["/repo/src/buildblock/ML_norm.cxx"]),
+        Request(ML, fn=["stir::apply_.*", "stir::make_fan_data_remove_gaps_help", "stir::set_fan_data_add_gaps_help", "stir::KL"], files=["/repo/src/buildblock/ML_norm.cxx"]),
         Request(ML, fn=["stir::(FanProjData|GeoData3D|BlockData3D|DetPairData)::.*"], files=["/repo/src/buildblock/ML_norm.cxx"]),
         Request(ML, fn=["stir::iterate_efficiencies"], files=["/repo/src/buildblock/ML_norm.cxx"]),
         Request(ML, fn=["stir::get_fan_info"], files=["/repo/src/buildblock/ML_norm.cxx"]),
@@ -410,6 +410,48 @@ def rule_f_format_strings_well_formed(ctx, fns):
     return n
 
 
+def rule_g_kl_weights_pairs_equally(ctx, fns):
+    """KL(FanProjData, FanProjData) is the distance the property speaks of (`every efficiency iteration leaves the KL distance no larger`):
+    that holds for the sum in which EVERY detector pair has the same weight, which is what the iteration decreases.  The fan data
+    store both (ra,a,rb,b) and (rb,b,ra,a); the loops over a and b visit both orders of a pair in one ring.  So either the loop over
+    rb covers the whole range (every pair twice), or - if it starts at ra - the terms with rb == ra are treated apart (halved) (F82:
+    in-plane pairs counted double, the reported distance went up after an iteration in more than half of the runs)."""
+    from engine.loops import describe
+
+    RULE = "C20.g-kl-weights-every-pair-equally"
+    n = 0
+    seen = set()
+    for f in fns:
+        if f.short != "KL" or f.body is None or len(f.params) != 3 or "FanProjData" not in (f.params[0].get("t") or "") or (f.file, f.body.line) in seen:
+            continue
+        seen.add((f.file, f.body.line))
+        loops = []
+        for lp in f.walk():
+            if lp.k == "ForStmt":
+                d = describe(lp, names=True)
+                if d:
+                    loops.append((d, lp))
+        rb = [(d, lp) for d, lp in loops if "get_max_rb" in d["upper"]]
+        ra = [(d, lp) for d, lp in loops if "get_max_ra" in d["upper"]]
+        if len(rb) != 1 or len(ra) != 1:
+            ctx.unrec(f.qn, "C20.g: loops over ra / rb not found")
+            continue
+        rav = key(ra[0][1].c[1].strip().c[0].strip(), True) if ra[0][1].c[1] is not None and ra[0][1].c[1].strip().c else "ra"
+        rbv = key(rb[0][1].c[1].strip().c[0].strip(), True) if rb[0][1].c[1] is not None and rb[0][1].c[1].strip().c else "rb"
+        init = rb[0][0]["init"]
+        # `max(ra, ..)` or `ra` itself as the first value (ra as the ARGUMENT of get_min_rb(ra) is the whole range)
+        triangular = init == rav or re.fullmatch(r"(std::)?max\((.*)\)", init) is not None and rav in [x.strip() for x in re.fullmatch(r"(std::)?max\((.*)\)", init).group(2).split(",")[:1] + re.fullmatch(r"(std::)?max\((.*)\)", init).group(2).rsplit(",", 1)[-1:]]
+        if not triangular:
+            ok, det = True, "the loop over rb covers its whole range: every pair is visited twice"
+        else:
+            apart = [m for m in rb[0][1].walk() if m.k == "BinaryOperator" and m.op in ("==", "!=") and {key(m.c[0].strip(), True), key(m.c[1].strip(), True)} == {rav, rbv}]
+            ok = bool(apart)
+            det = "the loop over rb starts at ra and the terms with rb == ra are treated apart" if ok else "the loop over rb starts at ra (pairs in different rings once) but pairs in the same ring are visited as (a,b) and as (b,a) by the loops over a and b and nothing treats rb == ra apart: in-plane pairs count double, and that sum is not what the efficiency iteration decreases"
+        ctx.ob(RULE, f.qn + "(FanProjData)", "weights", ok, f.where(), det)
+        n += 1
+    return n
+
+
 def run(ctx):
     ctx.explanation = (
         "Decides for ML_norm: (a) in every apply_*(data, factors, apply) the two branches on `apply` update the same element with *= "
@@ -433,6 +475,8 @@ def run(ctx):
             fns.append(f)
     rule_a(ctx, fns)
     rule_b(ctx, fns)
+    rule_g_kl_weights_pairs_equally(ctx, fns)
+    ctx.require_count("C20.g-kl-weights-every-pair-equally", 1)
     ctx.require_count("C20.a-apply-unapply-dual", 6)
     ctx.require_count("C20.b-fan-conversion-dual", 5)
     u2 = ctx.ex.get(reqs[1])
